@@ -45,7 +45,7 @@ func radiusBytes(r *rand.Rand) []byte {
 // runGossip: GossipAndReturnPeers on a started node without offer workers (queued offers stay observable). The
 // radius cache is rewritten per call so that 0..32 of the closest nodes cover the content.
 func runGossip(o *Out, r *rand.Rand, thorough bool, _ []string) {
-	rounds, perRound := 3, 150
+	rounds, perRound := 3, shorter(150, thorough)
 	if thorough {
 		rounds, perRound = 30, 300
 	}
